@@ -528,9 +528,35 @@ struct GDump {
              .f("trigger", qname(gd->getTriggeringComponent())).f("enclosing", qname(gd->getEnclosingElementName())).f("descAttrs", gd->getAttributes() != 0);
         }
         {
+            // the table is keyed by the address of the annotated component: label every entry with the kind of its owner
+            std::map<const void*, std::string> owner;
+            owner[g] = "schema";
+            { RefHash3KeysIdPoolEnumerator<SchemaElementDecl> e2 = g->getElemEnumerator();
+              while (e2.hasMoreElements()) { SchemaElementDecl& e = e2.nextElement(); owner[&e] = "element";
+                  for (XMLSize_t i = 0; i < e.getIdentityConstraintCount(); i++) owner[e.getIdentityConstraintAt(i)] = "identity-constraint";
+                  if (e.getAttWildCard()) owner[e.getAttWildCard()] = "attribute-wildcard"; } }
+            { NameIdPoolEnumerator<XMLNotationDecl> n2 = g->getNotationEnumerator(); while (n2.hasMoreElements()) owner[&n2.nextElement()] = "notation"; }
+            if (RefHashTableOf<XMLAttDef>* ar = g->getAttributeDeclRegistry()) { RefHashTableOfEnumerator<XMLAttDef> e(ar, false, XMLPlatformUtils::fgMemoryManager); while (e.hasMoreElements()) owner[&e.nextElement()] = "attribute"; }
+            if (RefHashTableOf<ComplexTypeInfo>* cr = g->getComplexTypeRegistry()) {
+                RefHashTableOfEnumerator<ComplexTypeInfo> e(cr, false, XMLPlatformUtils::fgMemoryManager);
+                while (e.hasMoreElements()) { ComplexTypeInfo& c = e.nextElement(); owner[&c] = "complexType";
+                    if (c.getAttWildCard()) owner[c.getAttWildCard()] = "attribute-wildcard";
+                    if (c.hasAttDefs()) { XMLAttDefList& al = c.getAttDefList(); for (XMLSize_t i = 0; i < al.getAttDefCount(); i++) owner[&al.getAttDef(i)] = "local-attribute"; }
+                    std::deque<const ContentSpecNode*> q; if (c.getContentSpec()) q.push_back(c.getContentSpec());
+                    size_t guard = 0;
+                    while (!q.empty() && guard++ < 100000) { const ContentSpecNode* n = q.front(); q.pop_front(); owner[n] = "particle"; if (n->getFirst()) q.push_back(n->getFirst()); if (n->getSecond()) q.push_back(n->getSecond()); } }
+            }
+            if (RefHashTableOf<XercesGroupInfo>* gr = g->getGroupInfoRegistry()) { RefHashTableOfEnumerator<XercesGroupInfo> e(gr, false, XMLPlatformUtils::fgMemoryManager); while (e.hasMoreElements()) owner[&e.nextElement()] = "group"; }
+            if (RefHashTableOf<XercesAttGroupInfo>* ag = g->getAttGroupInfoRegistry()) { RefHashTableOfEnumerator<XercesAttGroupInfo> e(ag, false, XMLPlatformUtils::fgMemoryManager); while (e.hasMoreElements()) owner[&e.nextElement()] = "attributeGroup"; }
+            if (DatatypeValidatorFactory* f = g->getDatatypeRegistry()) if (RefHashTableOf<DatatypeValidator>* ur = f->getUserDefinedRegistry()) {
+                RefHashTableOfEnumerator<DatatypeValidator> e(ur, false, XMLPlatformUtils::fgMemoryManager); while (e.hasMoreElements()) owner[&e.nextElement()] = "simpleType"; }
             std::vector<std::string> v; RefHashTableOf<XSAnnotation, PtrHasher>* ah = g->getAnnotations();
-            if (ah) { RefHashTableOfEnumerator<XSAnnotation, PtrHasher> ae(ah, false, XMLPlatformUtils::fgMemoryManager); while (ae.hasMoreElements()) v.push_back(XSDump::annot(&ae.nextElement())); }
-            l.f("annotations", "[" + joinSorted(v) + "]").f("grammarAnnotation", XSDump::annot(g->getAnnotation()));
+            if (ah) {
+                RefHashTableOfEnumerator<XSAnnotation, PtrHasher> ae(ah, false, XMLPlatformUtils::fgMemoryManager);
+                while (ae.hasMoreElements()) { void* k = ae.nextElementKey(); XSAnnotation* a = ah->get(k); std::map<const void*, std::string>::iterator o = owner.find(k);
+                    v.push_back("{" + (o == owner.end() ? std::string("other") : o->second) + "}" + XSDump::annot(a)); }
+            }
+            l.f("annotations", "[" + joinSorted(v, " || ") + "]").f("grammarAnnotation", XSDump::annot(g->getAnnotation()));
         }
         out.push_back(l.s);
         RefHash3KeysIdPoolEnumerator<SchemaElementDecl> ee = g->getElemEnumerator();
